@@ -208,9 +208,17 @@ fn emit_ops(emit: &mut dyn FnMut(Op), calls: &[Vec<u8>]) {
 /// depend on the current values only, not on whether the entry was looked at before
 fn with_observations(rng: &mut Rng, calls: &[Vec<u8>]) -> Vec<Vec<u8>> {
     let mut out = vec![];
+    // the entry may come from `Summary::default()` instead of `Summary::new()` (kind 7, first)
+    if rng.chance(1, 3) {
+        out.push(vec![7u8, 0u8]);
+    }
     for c in calls {
-        if rng.chance(1, 3) {
-            out.push(vec![4u8, 0u8]);
+        match rng.below(9) {
+            0 | 1 | 2 => out.push(vec![4u8, 0u8]),
+            // replaced by a clone of itself / moved out with mem::take and moved back
+            3 => out.push(vec![5u8, 0u8]),
+            4 => out.push(vec![6u8, 0u8]),
+            _ => {}
         }
         out.push(c.clone());
     }
@@ -219,6 +227,10 @@ fn with_observations(rng: &mut Rng, calls: &[Vec<u8>]) -> Vec<Vec<u8>> {
 
 fn gen_c07(tier: &str, rng: &mut Rng, emit: &mut dyn FnMut(Op)) {
     let thorough = tier == "thorough";
+    // an untouched entry, however it was obtained, has nothing set
+    emit_ops(emit, &[vec![7u8, 0u8]]);
+    emit_ops(emit, &[vec![6u8, 0u8]]);
+    emit_ops(emit, &[vec![7u8, 0u8], call_set(0, &Val::S("x".into())), vec![6u8, 0u8], vec![5u8, 0u8]]);
     // every variable alone, set and (for arrays) pushed: both name tables, all 23 rows
     for v in 0..23 {
         let val = match KINDS[v] {
